@@ -19,7 +19,7 @@ def copy_helpers(facts):
     for name, b in facts.bodies.items():
         if b.crate != "ciphercore_base" or b.kind == "closure" or "graphs::Node" not in b.local_ty(0):
             continue
-        if not ("/optimizer/" in b.file or b.file.endswith("mpc/mpc_compiler.rs")):
+        if not ("/optimizer/" in b.file or b.file.endswith(("mpc/mpc_compiler.rs", "src/graphs.rs"))):
             continue
         adds = [bb for bb, t in b.calls() if callee_name(t) == ADD_TYPED and not b.is_cleanup(bb)]
         if len(adds) != 1:
